@@ -110,6 +110,7 @@ def make_world(NL, kind="distinct"):
             elif k == "firet":
                 p.fire_timed(op[2], T[op[1]], "c")
     World.ec = staticmethod(ec)
+    World.T = T
     return World
 
 
@@ -226,7 +227,24 @@ def check_transition(World, NT, hist, step):
         r.apply(("fire", t, "probe"))
         if w.log != r.log:
             bad.append(("subscribers-after", t, list(w.log), list(r.log)))
-    return bad, r.canon()
+    # the state of the search: the reference state and what the real
+    # producer remembers (all its attributes; listeners and event types by
+    # their index)
+    Ts = getattr(World, "T", None) or []
+
+    def lab(o):
+        for i, l in enumerate(w.L):
+            if o is l:
+                return "L%d" % i
+        for i, t_ in enumerate(Ts):
+            if o is t_:
+                return "T%d" % i
+        return None
+    try:
+        fp = common.fingerprint(w.p, lab)
+    except Exception:  # noqa
+        fp = None
+    return bad, (r.canon(), fp)
 
 
 def bfs(task):
@@ -235,7 +253,7 @@ def bfs(task):
     World = make_world(NL, kind)
     alpha = alphabet(NT, NL, sub_types, rich)
     r0 = Ref(NT, eq_class(kind))
-    seen = {r0.canon(): []}
+    seen = {check_transition(World, NT, [], (("ra", None, None), {}))[1]: []}
     frontier = collections.deque([[]])
     trans = 0
     viols = []
